@@ -4,7 +4,7 @@ Ok exit.  Necessary structural conditions; interleaving-level monotonicity is no
 from .. import psi, arith
 from ..psi import fmt
 from . import common
-from .seqlock_model import ReaderModel
+from .seqlock_model import ReaderModel, is_record_read
 from .C02 import parity_of
 
 LEVEL = 'other'
@@ -68,9 +68,9 @@ def run_rules(ctx, chk):
     for p in r.paths:
         stores = r.self_stores(p)
         if p.kind == 'return' and p.value[0] == 'agg' and p.value[2] == 'Ok' and \
-                any(v[0] == 't' and v[1] == 'call' and 'read' in v[2][0] for v in stores.values()):
+                any(is_record_read(v) for v in stores.values()):
             for k, v in stores.items():
-                if not (v[0] == 't' and v[1] == 'call' and 'read' in v[2][0]):
+                if not is_record_read(v) and r.is_cache_field(k):
                     leaf = psi.T('deref', ('sym', 'self'))
                     for part in str(k).split('.'):
                         leaf = psi.T('field', leaf, part)
@@ -82,7 +82,8 @@ def run_rules(ctx, chk):
     for p, evs in zip(r.paths, r.evs):
         stores = r.self_stores(p)
         cache = r.returns_cache(p)
-        rec_fields = [k for k, v in stores.items() if v[0] == 't' and v[1] == 'call' and 'read' in v[2][0]]
+        stores = {k: v for k, v in stores.items() if r.is_cache_field(k)}      # (statistics and the like are not cache state)
+        rec_fields = [k for k, v in stores.items() if is_record_read(v)]
         gen_fields = [k for k, v in stores.items() if k not in rec_fields]
         gloads = [e.term for e in evs if e.kind == 'gload']
         if p.kind == 'return' and p.value[0] == 'agg' and p.value[2] == 'Ok':
